@@ -126,12 +126,27 @@ fn get_key_offset(
 	path_of_includer: &std::path::Path,
 ) -> Option<usize>
 {
-	// `./a/util.pn` and `a/util.pn` are the same file.
+	// `./a/util.pn`, `a/b/../util.pn` and `a/util.pn` are the same file.
 	fn without_curdir(path: &std::path::Path) -> std::path::PathBuf
 	{
-		path.components()
-			.filter(|x| !matches!(x, std::path::Component::CurDir))
-			.collect()
+		let mut normalized = std::path::PathBuf::new();
+		for component in path.components()
+		{
+			match component
+			{
+				std::path::Component::CurDir => (),
+				std::path::Component::ParentDir
+					if matches!(
+						normalized.components().next_back(),
+						Some(std::path::Component::Normal(_))
+					) =>
+				{
+					normalized.pop();
+				}
+				component => normalized.push(component),
+			}
+		}
+		normalized
 	}
 	let filepath = without_curdir(std::path::Path::new(filename));
 	let position =
